@@ -23,10 +23,11 @@ MCPkgs == [a1 |-> [kws |-> {"amd64"},           lic |-> AllOf(<<L("l1")>>)],
            a2 |-> [kws |-> {"~amd64"},          lic |-> AllOf(<<AnyOf(<<L("l1"), AllOf(<<L("l2"), L("l3")>>)>>)>>)],
            b1 |-> [kws |-> {"~x86", "-amd64"},  lic |-> AllOf(<<L("l2"), L("l1")>>)],
            c1 |-> [kws |-> {},                  lic |-> AllOf(<<>>)]]
-MCDefs == [g |-> {M(FALSE, "l1"), M(TRUE, "h")}, h |-> {M(FALSE, "l2")}]
+\* three levels of nesting: g -> h -> k
+MCDefs == [g |-> {M(FALSE, "l1"), M(TRUE, "h")}, h |-> {M(TRUE, "k")}, k |-> {M(FALSE, "l2")}]
 
-Node0 == [akw |-> <<>>, alic |-> <<>>, mask |-> [neg |-> {}, pos |-> {}], unmask |-> [neg |-> {}, pos |-> {}], pakw |-> <<>>]
-Cfg0 == [arch |-> "amd64", nodes |-> <<Node0, Node0>>,
+Node0 == [parents |-> <<>>, akw |-> <<>>, alic |-> <<>>, mask |-> [neg |-> {}, pos |-> {}], unmask |-> [neg |-> {}, pos |-> {}], pakw |-> <<>>]
+Cfg0 == [arch |-> "amd64", nodes |-> <<Node0, [Node0 EXCEPT !.parents = <<1>>]>>,
          conf |-> [akw |-> <<>>, alic |-> <<T(FALSE, "group", "g")>>],
          user |-> [mask |-> {}, unmask |-> {}, pakw |-> <<>>, plic |-> <<>>],
          repo |-> [masks |-> {}, defs |-> MCDefs],
